@@ -125,6 +125,29 @@ def run(ctx):
         if d:
             ctx.violation("relabelling / re-typing changed the result: " + d,
                           {"cfg": cfg, "pred": p, "ref": r, "pred2": p2, "ref2": r2, "map_pred": mp_p, "map_ref": mp_r})
+    farey_cases(ctx)
+
+
+def farey_cases(ctx):
+    """competing candidates whose scores are distinct but equal to nine decimals: the matching is determined, so renaming the labels
+    (in particular reversing their order) must not change anything"""
+    import random as _random
+    rng = ctx.rng
+    for k in range(2 if ctx.tier != "thorough" else 8):
+        p, r, _ = impl.farey_pair(_random.Random(rng.randrange(10 ** 6)))
+        cfg = {"input": "unmatched", "matcher": "naive", "m2o": False, "mmetric": "IOU", "mthr": 0.25, "imetrics": ["IOU", "DSC"], "gmetrics": []}
+        dt2 = rng.choice(["uint8", "uint16", "uint32"])
+        hi = min(int(np.iinfo(dt2).max), 2 ** 24 - 1)
+        a, b = sorted(rng.sample(range(1, hi + 1), 2))
+        mp_p, mp_r = {1: b, 2: a}, {1: rng.randint(1, hi)}          # the order of the two prediction labels is reversed
+        p2, r2 = apply(p, mp_p, dt2), apply(r, mp_r, dt2)
+        o1, o2 = meta.run_both(cfg, p, r, p2, r2)
+        ctx.count({"farey": True, "map_pred": mp_p, "map_ref": mp_r, "dtype": dt2}, True)
+        ctx.bump("unmatched/farey/" + dt2)
+        d = meta.same_outcome(o1, o2)
+        if d:
+            ctx.violation("relabelling / re-typing changed the result: " + d,
+                          {"cfg": cfg, "pred": p, "ref": r, "pred2": p2, "ref2": r2, "map_pred": mp_p, "map_ref": mp_r})
 
 
 def replay(path):
